@@ -133,7 +133,7 @@ def gen_cases(seed, tier):
         kind = KINDS[i % 3]
         dtype = DTYPES[(i // 3) % len(DTYPES)]
         family = FAMILIES[int(rng.integers(len(FAMILIES)))]
-        c = dict(kind=kind, dtype=dtype, family=family, scale=float(common.pick(rng, [1.0, 1.0, 1e-3, 3e4])),
+        c = dict(kind=kind, dtype=dtype, family=family, scale=float(common.pick(rng, [1.0, 1.0, 1e-3, 3e4, 1e-10, 1e-12])),
                  sub=int(rng.integers(2 ** 31)))
         if kind == 'oneshot':
             c['cfg'] = gen_cfg(rng, i, tier)
@@ -470,7 +470,7 @@ def run_oneshot(c, ctx):
                     margin=prec(x) == 1.0)
 
 
-def feed_stream(ctx, fb, cfg, x, h, comp, E, B, alt_full, explicit_flag=True, tag=None):
+def feed_stream(ctx, fb, cfg, x, h, comp, E, B, alt_full, explicit_flag=True, tag=None, first_real=False):
     """Feed x (a whole number of windows) chunk by chunk according to the composition `comp` into fb (fresh).
     E, B: definition of the whole stream. Returns the list of outputs (or None when alignment was lost)."""
     R = ctx.R
@@ -478,9 +478,15 @@ def feed_stream(ctx, fb, cfg, x, h, comp, E, B, alt_full, explicit_flag=True, ta
     MP = M * P
     T, emitted, outs = 0, 0, []
     mg = prec(x) == 1.0
+    xin = x.copy()                   # the caller's stream array; chunks are handed over as slices (views) of it
     for j, w in enumerate(comp):
-        chunk = x[T * MP:(T + w) * MP].copy()
+        chunk = xin[T * MP:(T + w) * MP]
+        if first_real and j == 0 and np.iscomplexobj(xin):
+            chunk = np.ascontiguousarray(chunk.real)      # the stream starts with a real-dtype chunk (its imaginary part is zero)
         o = np.asarray(ctx.call(fb.channelize, chunk, cache=True) if explicit_flag else ctx.call(fb.channelize, chunk))
+        if not R.check(np.array_equal(xin, x), 'channelize-modified-the-callers-input-array', call=j, composition=comp, M=M, P=P,
+                       changed=int(np.sum(xin != x))):
+            return None
         R.count('chunk_calls')
         pos = 'first-call' if j == 0 else 'later-call'
         if not shape_ok(ctx, o, P // 2, 'output-channel-count'):
@@ -532,6 +538,13 @@ def run_compose(c, ctx):
     x = make_stream(rng, c['family'], c['dtype'], W * MP, P, c['scale'])
     is_c = np.iscomplexobj(x)
     comps = c['comps'] if c['comps'] is not None else compositions(W)
+    first_real = bool(is_c and c['sub'] % 3 == 0 and W >= 3)
+    if first_real:
+        # a stream whose first windows are purely real and are handed over as a real-dtype array, the rest complex
+        wmax = max(cc[0] for cc in comps)
+        x = x.copy()
+        x[:wmax * MP] = x[:wmax * MP].real
+        R.bucket('stream:real-dtype-first-chunk-then-complex')
     R.bucket('compose:exhaustive' if c['comps'] is None else 'compose:sampled')
     E, B = expected(x, h, cfg, 0, rp.max_spectra(len(x), M, P))
     _alt = {}
@@ -556,7 +569,8 @@ def run_compose(c, ctx):
         R.count('streams')
         if comp[0] == 1 and len(comp) > 1:
             R.bucket('compose:starts-with-one-window')
-        outs = feed_stream(ctx, fb, cfg, x, h, comp, E, B, alt_full if is_c else None, explicit_flag=c['explicit_flag'])
+        outs = feed_stream(ctx, fb, cfg, x, h, comp, E, B, alt_full if is_c else None, explicit_flag=c['explicit_flag'],
+                           first_real=first_real)
         if outs is None:
             continue
         cat = np.concatenate(outs, axis=0) if outs else np.zeros((0, P // 2), dtype=complex)
